@@ -295,6 +295,8 @@ func main() {
 		dump(os.Args[2])
 	case "idents":
 		idents()
+	case "writeifneeded":
+		writeIfNeededLoop(os.Args[2])
 	case "parsetype":
 		parseTypeLoop()
 	case "typetree":
